@@ -7,12 +7,14 @@ from proggen import dec_atom
 HOSTFNS = f'(S:{hx("probe")} H:probe) (S:{hx("apply")} H:apply) (S:{hx("try_apply")} H:try_apply)'
 
 
-def eval_line(src, names_entries='', budget=3000, rng=1, probes='', hostfns=True, astfns=None):
+def eval_line(src, names_entries='', budget=3000, rng=1, probes='', hostfns=True, astfns=None, modelparser=False):
     """astfns: list of (name, [params], body source) -> ast_names={name: LambdaOp(params, parse(body))}"""
     names = '(M 0 ' + names_entries + (' ' + HOSTFNS if hostfns else '') + ')'
     extra = ''
     if astfns:
         extra = ' (astfns ' + ' '.join(f'({hx(n)} (params {" ".join(hx(q) for q in ps)}) {hx(b)})' for n, ps, b in astfns) + ')'
+    if modelparser:
+        extra += ' (modelparser)'
     return f'EVAL (src {hx(src)}) (budget {budget}) (rng {rng}) (names {names}) (probes {probes}){extra}'
 
 
@@ -249,7 +251,7 @@ def probe_cases(seed, n):
                 ps.append(f'({j} ret T)')
             elif m == 5:
                 ps.append(f'({j} ret D:0:1:0:c)')
-        cases.append((eval_line(src, '', probes=' '.join(ps)), src + '  probes: ' + ' '.join(ps)))
+        cases.append((eval_line(src, '', probes=' '.join(ps), modelparser=True), src + '  probes: ' + ' '.join(ps)))
     return cases
 
 
